@@ -41,6 +41,42 @@ let run () =
              List.iter (fun (x, y) -> Printf.printf " %s %s;" (hx x) (hx y)) path
          | None -> Printf.printf " | 0 |");
         print_newline ()
+    | "RLRT" :: maxd :: bias :: thr :: iters :: tseed :: rest ->
+        let maxd = float_of_string maxd and bias = float_of_string bias and thr = float_of_string thr
+        and iters = int_of_string iters and tseed = int_of_string tseed in
+        let rest = ref rest in
+        let next () = match !rest with x :: t -> rest := t; x | [] -> "0" in
+        let nf () = float_of_string (next ()) in
+        let _ = next () in let nw = int_of_string (next ()) in
+        let walls = List.init nw (fun _ -> let w = nf () in let lo = nf () in let hi = nf () in (w, lo, hi)) in
+        let _ = next () in let ns = int_of_string (next ()) in
+        let starts = List.init ns (fun _ -> let x = nf () in let y = nf () in (x, y)) in
+        let _ = next () in let gx = nf () in let gy = nf () in
+        let _ = next () in let np = int_of_string (next ()) in
+        let samples = List.init np (fun _ -> let x = nf () in let y = nf () in (x, y)) in
+        let dist (ax, ay) (bx, by) = let dx = ax -. bx and dy = ay -. by in sqrt (0.0 +. dx *. dx +. dy *. dy) in
+        let steer (nx, ny) (rx, ry) =
+          let d = dist (nx, ny) (rx, ry) in
+          if d > maxd then (let t = maxd /. d in (nx +. (rx -. nx) *. t, ny +. (ry -. ny) *. t)) else (rx, ry) in
+        let touches (w, lo, hi) (ax, ay) (bx, by) =
+          if (ax -. w) *. (bx -. w) > 0.0 then false
+          else if ax = bx then (if ay <= by then ay <= hi && lo <= by else by <= hi && lo <= ay)
+          else (let t = (w -. ax) /. (bx -. ax) in let y = ay +. t *. (by -. ay) in lo <= y && y <= hi) in
+        let mv a b = not (List.exists (fun k -> touches k a b) walls) in
+        let gdist s = dist s (gx, gy) in
+        let sat s = gdist s < thr in   (* GoalRegion::isSatisfied: strictly inside the threshold *)
+        let tv q = (tseed + 7 * q + 3 * q * q) mod 64 in
+        let us = List.init iters (fun k -> (z_of_int (tv (2 * k)), z_of_int 64)) in
+        let hits = List.init iters (fun k -> float_of_int (tv (2 * k + 1)) /. 64.0 < bias) in
+        let (tree, rep) = rlrt_solve (fun a b -> a < b) steer mv sat gdist (gx, gy) (0.0, 0.0) starts us hits samples in
+        Printf.printf "rlrt %d;" (List.length tree);
+        List.iter (fun ((x, y), p) -> Printf.printf " %s %s %d;" (hx x) (hx y) (match p with Some i -> int_of_nat i | None -> -1)) tree;
+        (match rep with
+         | Some ((path, approx), dd) ->
+             Printf.printf " | 1 %d %s |" (if approx then 1 else 0) (hx dd);
+             List.iter (fun (x, y) -> Printf.printf " %s %s;" (hx x) (hx y)) path
+         | None -> Printf.printf " | 0 |");
+        print_newline ()
     | "LRRT" :: maxd :: bias :: thr :: iters :: tseed :: rest ->
         let maxd = float_of_string maxd and bias = float_of_string bias and thr = float_of_string thr
         and iters = int_of_string iters and tseed = int_of_string tseed in
